@@ -216,3 +216,10 @@ Theorem C16_pty_winsize_trunc : forall w h,
   0 <= ws_rows (pty_winsize w h) < 65536 /\ 0 <= ws_cols (pty_winsize w h) < 65536.
 Proof. exact pty_winsize_trunc. Qed.
 Print Assumptions C16_pty_winsize_trunc.
+
+(* SetTee while a read is in progress (the loop's idle state): the bytes a read returns go to the tee installed
+   when the read returns - each tee receives exactly the data of the reads it was in force at, in order *)
+Theorem C16_tee_switch : forall rs cur a b,
+  tee_sw_run rs cur a b = (a ++ tee_gets 1 (tee_in_force rs cur), b ++ tee_gets 2 (tee_in_force rs cur)).
+Proof. exact tee_sw_run_spec. Qed.
+Print Assumptions C16_tee_switch.
